@@ -74,6 +74,24 @@ def run(ctx):
         if len(cnt) != cells or any(abs(v - T * p) > t for v in cnt.values()):
             ctx.fail('StabilizerState.sample', 'samples are not uniform over the %d group elements (counts %s, tolerance %.0f)' % (cells, sorted(cnt.values()), t),
                      dict(rows=rows, r=r))
+    # ---- uniformity also for small sample sizes (many calls of sample(1), sample(2), sample(3) tallied together)
+    for L in (1, 2, 3):
+        n = 3
+        rows, r = G.rand_tableau(rng, n, 0)
+        st = impl.state(rows, 0)
+        np.random.seed(rng.randrange(1 << 30))
+        calls = ctx.budget(2400, 8000) // L
+        cnt = {}
+        for _ in range(calls):
+            for P in impl.ops_of(st.sample(L)):
+                cnt[P] = cnt.get(P, 0) + 1
+        T = calls * L
+        t = math.sqrt(T * math.log(2 * 8 / 1e-9) / 2)
+        ctx.count('uniformity-small-L')
+        ctx.case(('uniform-small', L), True)
+        if len(cnt) != 8 or any(abs(v - T / 8) > t for v in cnt.values()):
+            ctx.fail('StabilizerState.sample', 'sample(%d) called %d times is not uniform over the 8 group elements (counts %s, tolerance %.0f)' % (L, calls, sorted(cnt.values()), t),
+                     dict(rows=rows, L=L))
     # ---- density matrix expansion
     for _ in range(ctx.budget(80, 800)):
         n = rng.choice([1, 2, 3, 4, 5])
